@@ -36,6 +36,13 @@ def cases(tier, rng, run):
             out.append(Case(f"CALL\tfunc:{style}\t-\t\tP|x|S|FloatTensor,0,a|T,0:float32,2\tP|t|TO|{specs}|U:{vals}", "opt-tuple"))
             out.append(Case(f"CALL\tfunc:{style}\t-\t\tP|x|S|FloatTensor,0,a|T,0:float32,2\tR|TO|{specs}|U:{vals}", "opt-tuple"))
         out.append(Case(f"CALL\tmethod:pos\t-\t\tP|t|TO|{specs}|U:{vals}", "opt-tuple"))
+    # provider histories (the C12 generator): what a provider returns may change between two calls of ONE decorated function — an argument
+    # that violates under the mapping of THIS call never reaches the body, a result that violates is never handed over
+    import impl_hist  # noqa: F401
+    from checks import c12
+
+    for _ in range(500 if tier == "quick" else 6000):
+        out.append(Case(c12.gen(rng, tier), "prov-history"))
     # functions whose ONLY dltype hint is the return annotation (factories, loaders): no parameter at all, or parameters of plain types —
     # the result is checked all the same: the body has run once, the violating value is not handed to the caller
     rets = [("S|FloatTensor,0,a b", "T,0:float32,2"), ("S|FloatTensor,0,a b", "T,1:int32,2.3"), ("S|FloatTensor,0,3 a", "T,0:float32,2.5"), ("S|FloatTensor,0,a a", "T,2:float32,2.3"),
@@ -49,6 +56,12 @@ def cases(tier, rng, run):
 
 
 def judge(case, impl_out, spec):
+    if case.tag == "prov-history":
+        from checks import c12
+
+        why = c12.judge(case, impl_out, spec)
+        case.meta["nt"] = True
+        return why if why and (" violates " in why) else None   # (the order-of-checks demands only; the rest of that oracle belongs to C02 / C12)
     c = ctxcommon.ctx_of(case)
     if c is None:
         return None
@@ -134,6 +147,9 @@ def custom(run, tier):
     from checks import c09
 
     c09.reuse_and_late(run)   # ... and when the decorator object was applied to other functions before (each function queues ITS parameters)
+    from checks import c08
+
+    c08.custom(run, tier)     # ... and when the decorated thing is not a plain function (a staticmethod object, a jitted function, a functools.wraps wrapper): every fault is still caught before the callee runs
     ann = dltype.FloatTensor["r c"]
     n = 0
     for lib, base in (("numpy", np.ndarray), ("torch", torch.Tensor)):
